@@ -163,6 +163,9 @@ def decide(check, crate, oid, setup, post, replay=None, rb=None, unwind=8, enums
                 r = ex.check(z3.Not(p))
                 if r == z3.sat:
                     m = ex.solver.model()
+                    if prefer is not None:
+                        if ex.check(z3.And(z3.Not(p), prefer(inputs))) == z3.sat:
+                            m = ex.solver.model()
                     cex.append(dict(label=label, inputs=cex_inputs(m)))
                 elif r == z3.unknown:
                     status = "inconclusive"
